@@ -1,4 +1,5 @@
 CONSTANT Polys = {11, 19}
+CONSTANT AMax = 255
 SPECIFICATION Spec
 INVARIANT GroupLaw
 CHECK_DEADLOCK FALSE
